@@ -38,7 +38,8 @@ enum Elem {
     Unit(String),
     Compu(String, Vec<(u32, Option<String>)>),
     Ecuc(String, Vec<Cont>),
-    Bsw(String, Vec<String>),
+    /// BSW-MODULE-ENTRY with an ORDERED ARGUMENTS list; every argument may carry a reorderable ANNOTATIONS list
+    Bsw(String, Vec<(String, Vec<String>)>),
     /// SYSTEM-SIGNAL with a LONG-NAME (L-4 items: language attribute, text) and ADMIN-DATA/SDGS/SDG (SD items: GID attribute,
     /// text): anonymous siblings that may differ ONLY in an attribute value
     Doc(String, Vec<(usize, usize)>, Vec<(usize, usize)>),
@@ -149,7 +150,21 @@ pub fn gen_doc(tape: &[u32]) -> SortDoc {
                 }
                 _ => {
                     let k = t.below(5);
-                    Elem::Bsw(n, names(&mut t, k))
+                    let an = names(&mut t, k);
+                    Elem::Bsw(
+                        n,
+                        an.into_iter()
+                            .map(|a| {
+                                let na = if t.chance(120) { 2 + t.below(3) } else { 0 };
+                                let mut origins: Vec<String> = (0..na).map(|_| ["z", "a", "m", "b2", "b10", "k"][t.below(6)].to_string()).collect();
+                                origins.sort();
+                                origins.dedup();
+                                let mut sm = SplitMix(t.below(1 << 16) as u64);
+                                permute(&mut origins, &mut sm);
+                                (a, origins)
+                            })
+                            .collect(),
+                    )
                 }
             };
             elems.push(e);
@@ -262,6 +277,14 @@ pub fn permuted(d: &SortDoc, seed: u64) -> (SortDoc, bool) {
                 Elem::Compu(_, scales) => {
                     if !o.scales {
                         ch |= permute(scales, &mut sm)
+                    }
+                }
+                Elem::Bsw(_, args) => {
+                    // ARGUMENTS itself is ordered (stays); the ANNOTATIONS below each argument are not
+                    if !o.annotations {
+                        for (_, origins) in args.iter_mut() {
+                            ch |= permute(origins, &mut sm);
+                        }
                     }
                 }
                 Elem::Doc(_, l4, sd) => {
@@ -396,8 +419,14 @@ pub fn build(d: &SortDoc) -> R<(AutosarModel, ArxmlFile)> {
                     let b = els.create_named_sub_element(ElementName::BswModuleEntry, n)?;
                     if !args.is_empty() {
                         let a = b.create_sub_element(ElementName::Arguments)?;
-                        for an in args {
-                            a.create_named_sub_element(ElementName::SwServiceArg, an)?;
+                        for (an, origins) in args {
+                            let arg = a.create_named_sub_element(ElementName::SwServiceArg, an)?;
+                            if !origins.is_empty() {
+                                let ann = arg.create_sub_element(ElementName::Annotations)?;
+                                for o in origins {
+                                    ann.create_sub_element(ElementName::Annotation)?.create_sub_element(ElementName::AnnotationOrigin)?.set_character_data(o.clone())?;
+                                }
+                            }
                         }
                     }
                 }
